@@ -57,3 +57,14 @@ Definition decomp_val (t1 : list (nat * float * float)) (t2 : list (nat * float 
   (g : gate float) : option (list (gate float)) :=
   decomp_gate PrimFloat.add PrimFloat.mul PrimFloat.div PrimFloat.opp
               (kpow PrimFloat.mul 1%float) (tbl1 t1) (tbl2 t2) cval g.
+
+(* engine histories at floats (arithmetic-only expressions: no function table needed) *)
+From SFV Require Import C10.Engine.
+Definition frun (mode : nat) (fp : list (nat * fpar float)) (segs : list (list (event float))) : list (res float) :=
+  let free := fun n => match lookup fp n with Some p => free_value p | None => None end in
+  let fwd := match mode with
+             | 0 => @fwd_written float
+             | 1 => @fwd_written_lazy float
+             | _ => @fwd_ideal float
+             end in
+  snd (run_segs PrimFloat.add PrimFloat.mul PrimFloat.div PrimFloat.opp 1%float (tbl1 []) (tbl2 []) fwd free (@empty float) segs).
